@@ -28,7 +28,9 @@ def run(chk):
     (work / "a.utb").write_text("space \\s 0\nletter a 1\nletter b 12\nletter c 14\n")
     (work / "ab.utb").write_text("space \\s 0\nletter a 2\nletter b 23\nletter c 25\n")          # name has a.utb... as prefix of the list below
     (work / "shared.uti").write_text("letter d 145\n")
-    (work / "b.utb").write_text("include shared.uti\nspace \\s 0\nletter a 3\nletter b 36\nletter c 1\n")
+    # B uses every scratch buffer of the library: corrections, a second and third pass in both directions
+    (work / "b.utb").write_text("include shared.uti\nspace \\s 0\nletter a 3\nletter b 36\nletter c 1\n"
+                                "noback correct \"ca\" \"ac\"\nnoback pass2 @3-36 @36-3\nnoback pass3 @1-1 @1\nnofor pass2 @36-3 @3-36\nnofor correct \"ac\" \"ca\"\n")
     (work / "bad.utb").write_text("space \\s 0\nletter a 1\nthisisnotanopcode x 1\n")
     A = str(work / "a.utb")
     APFX = A + "," + str(work / "shared.uti")        # A is a prefix of this list string; shares a file with B
@@ -44,11 +46,12 @@ def run(chk):
         "addA": "K %s | always ab 123456" % A,
         "addAbad": "K %s | always ab 9-10-z" % A,
         "backA": "Y %s ;; %s" % (A, trans.case_line("B", 4, [0x8001, 0x8003, 0x8009], 20)),
+        "backB": "Y %s ;; %s" % (B, trans.case_line("B", 4, [0x8003, 0x8024, 0x8003, 0x8001], 20)),
         "hyph": "Y %s ;; %s" % (HY, trans.case_line("H", 0, [ord(c) for c in "hyphenation"], 20)),
         "free": "F",
         "getA": "G " + A,
     }
-    name_of = {"useA": A, "useB": B, "useApfx": APFX, "useBad": BAD, "addA": A, "addAbad": A, "backA": A, "hyph": HY, "getA": A}
+    name_of = {"useA": A, "useB": B, "useApfx": APFX, "useBad": BAD, "addA": A, "addAbad": A, "backA": A, "backB": B, "hyph": HY, "getA": A}
     keys = list(ops)
     seqs = []
     maxlen = 3 if quick else 4
@@ -65,7 +68,7 @@ def run(chk):
         k = (op, tuple(added))
         if k not in fresh:
             pre = ["K %s | %s" % (A, rule) for rule in added] if name_of.get(op) == A else []
-            out = common.run_stream(exe, ["e 1"], pre + [ops[op]], env=env, timeout=120)
+            out = common.run_stream(exe, ["e 0"], pre + [ops[op]], env=env, timeout=120)
             fresh[k] = sig(out[-1])
         return fresh[k]
 
@@ -78,8 +81,11 @@ def run(chk):
             return ("G",)
         return o.strip()
 
-    for seq in seqs:
-        outs = common.run_stream(exe, ["e 1"], [ops[k] for k in seq], env=dict(env, ASAN_OPTIONS="detect_leaks=1:exitcode=77"), timeout=300)
+    for si, seq in enumerate(seqs):
+        # without the exact-scratch hook (the library's real sizing: buffers are kept and reused between calls and must be
+        # dropped completely by lou_free); every fourth sequence with it
+        exact = 1 if si % 4 == 3 else 0
+        outs = common.run_stream(exe, ["e %d" % exact], [ops[k] for k in seq], env=dict(env, ASAN_OPTIONS="detect_leaks=1:exitcode=77"), timeout=300)
         # model of the cache: which names are compiled, finalized, additions
         cached, final, added = set(), set(), []
         ptr = {}
@@ -142,7 +148,7 @@ def run(chk):
                 chk.sample(dict(sequence=seq), cap=3)
     shutil.rmtree(work, ignore_errors=True)
     chk.cov["exhaustive_up_to_length"] = maxlen
-    chk.cov["rule"] = ("all sequences up to length %d over 10 operations {use A, use B, use list A+shared (A's name is a prefix, shares a file with B), "
+    chk.cov["rule"] = ("all sequences up to length %d over 11 operations {use A, use B (multipass, both directions), use list A+shared (A's name is a prefix, shares a file with B), "
                        "use a list that does not compile, add a valid / an invalid rule to A, back-translate with A, hyphenate, lou_getTable(A), "
                        "lou_free} plus random sequences of 5-40; observed: files opened per step (hook), pointer identity, lou_compileString "
                        "results, every result vs a fresh process with the same accepted additions, LeakSanitizer at exit; distinct = sequence" % maxlen)
